@@ -85,7 +85,8 @@ def genKeys (kind : String) (n a b : Nat) : Option (Array Int) :=
 def mkArr (ks : Array Int) : Array Elem :=
   (Array.range ks.size).zipWith (fun i k => { key := k, id := i }) ks
 
-def viaOk (v : String) : Bool := v == "raw" || v == "vec"
+-- `rawn`: raw array, the client passes NULL as scratch and its swap function uses its own buffer
+def viaOk (v : String) : Bool := v == "raw" || v == "vec" || v == "rawn"
 
 def mstep (m : MState) (ws : List String) : MState × String :=
   let bad := (m, "STOP bad-op")
